@@ -346,9 +346,11 @@ where
     let mut s: FrequentItemsSketch<T> = FrequentItemsSketch::new(1usize << c.lg);
     let mut total = 0u64;
     for (shape, n, w, seed) in &c.runs {
+        // the stream weight must fit u64 (with room for count + offset): a weight that would not is replaced by 1
+        let w = if (*w as u128) * (*n as u128) + (total as u128) < (u64::MAX - (1 << 50)) as u128 { *w } else { 1 };
         for id in c07::stream(shape, *n as usize, domain, *seed) {
-            s.update_with_count(conv(id), *w);
-            total += *w;
+            s.update_with_count(conv(id), w);
+            total += w;
         }
     }
     let purged = s.maximum_error() > 0;
@@ -457,6 +459,9 @@ where
     let mut repurged = false;
     for (i, (item, w)) in c.more.iter().enumerate() {
         let id = ((*item as u64) * domain) >> 16;
+        // keep the stream weight inside u64 (see above)
+        let w = if s.total_weight().checked_add(*w).map(|t| t < u64::MAX - (1 << 50)).unwrap_or(false) { *w } else { 1 };
+        let w = &w;
         s.update_with_count(conv(id), *w);
         d.update_with_count(conv(id), *w);
         repurged |= s.maximum_error() != offset0 || d.maximum_error() != offset0;
